@@ -5,6 +5,7 @@ Helper lemmas for `Model/RewriteDecisions.lean`: every step of the rewrite-decis
 import RegexVerif.Model.RewriteDecisions
 import RegexVerif.Lemmas.Rewrites
 import RegexVerif.Lemmas.ClassCanon
+import RegexVerif.Lemmas.AutoAtomic
 
 namespace RegexVerif.RewriteDecisions
 open RegexVerif.Spec
@@ -1057,5 +1058,642 @@ theorem aEq_mergeLetters (e : Env) (ht : TextOK e) (h rtl : Bool) (cs : List RNo
   unfold mergeLetters
   have := aEq_mergeGo e ht h rtl (flatAlts cs) [] false false
   exact (by simpa using this : AEq h e rtl _ (flatAlts cs)).trans (aEq_flatAlts h e rtl cs)
+
+/-! ## `reduceAlternation` -/
+
+theorem nEq_mkAlt_mergeLetters (e : Env) (ht : TextOK e) (h rtl : Bool) (o : Nat) (cs : List RNode) :
+    NEq h e rtl (mkAlt o (mergeLetters false cs)) (.alt o cs) := by
+  intro st
+  rw [m_mkAlt, m_alt]
+  exact aEq_mergeLetters e ht h rtl cs st
+
+theorem nEq_removeEmpties (e : Env) (h rtl : Bool) (o : Nat) (cs : List RNode) :
+    NEq h e rtl (removeEmpties false o cs) (.alt o cs) := by
+  intro st
+  unfold removeEmpties
+  rw [m_mkAlt, m_alt]
+  exact aEq_removeEmptiesGo h e rtl cs false st
+
+/-- **`reduceAlternation` (proved variant) keeps the successes** — the first success when the parent is Atomic -/
+theorem reduceAlt_sound (e : Env) (ht : TextOK e) (red : Bool → RNode → RNode) (on pa rtl : Bool)
+    (hred : rtl = false → RedSound e false red) (o : Nat) (cs : List RNode) :
+    NEq pa e rtl (reduceAlt red false on pa rtl o cs) (.alt o cs) := by
+  unfold reduceAlt
+  match cs with
+  | [] => intro st; simp [toPat, altOf, toPats]; exact LRel.refl _ _
+  | [c] => intro st; simp [toPat, altOf, toPats]; exact LRel.refl _ _
+  | a :: b :: rest =>
+    simp only
+    have h1 := nEq_mkAlt_mergeLetters e ht pa rtl o (a :: b :: rest)
+    split
+    · rename_i o1 cs1 heq
+      rw [heq] at h1
+      refine NEq.trans ?_ h1
+      have h2 : NEq pa e rtl (if (on && !rtl) = true then factorText red pa o1 cs1 else .alt o1 cs1) (.alt o1 cs1) := by
+        split
+        · rename_i hc
+          simp only [Bool.and_eq_true, Bool.not_eq_true'] at hc
+          obtain ⟨_, rfl⟩ := hc
+          exact m_factorText e red (hred rfl) pa o1 cs1
+        · exact NEq.refl _ _ _ _
+      split
+      · rename_i o2 cs2 heq2
+        rw [heq2] at h2
+        refine NEq.trans ?_ h2
+        have h3 : NEq pa e rtl (if (on && !rtl) = true then factorSet red pa o2 cs2 else .alt o2 cs2) (.alt o2 cs2) := by
+          split
+          · rename_i hc
+            simp only [Bool.and_eq_true, Bool.not_eq_true'] at hc
+            obtain ⟨_, rfl⟩ := hc
+            exact m_factorSet e red (hred rfl) pa o2 cs2
+          · exact NEq.refl _ _ _ _
+        split
+        · rename_i o3 cs3 heq3
+          rw [heq3] at h3
+          exact NEq.trans (nEq_removeEmpties e pa rtl o3 cs3) h3
+        · exact h3
+      · exact h2
+    · exact h1
+
+/-! ## the alternation block of `reduceAtomic` -/
+
+theorem aEq_trimGo (e : Env) (rtl : Bool) : ∀ (l : List RNode), AEq true e rtl (trimAfterEmpty.go l) l
+  | [] => by simp [trimAfterEmpty.go]; exact AEq.refl _ _ _ _
+  | [x] => by simp [trimAfterEmpty.go]; exact AEq.refl _ _ _ _
+  | x :: y :: rest => by
+    simp only [trimAfterEmpty.go]
+    split
+    · rename_i hx
+      have : x = .empty := by cases x <;> simp_all [isEmpty]
+      subst this
+      intro st
+      simp only [LRel, if_true]
+      rw [mA_single, mA_cons]
+      simp [toPat, m]
+    · exact AEq.cons x (aEq_trimGo e rtl (y :: rest))
+
+theorem aEq_trimAfterEmpty (e : Env) (rtl : Bool) (bs : List RNode) : AEq true e rtl (trimAfterEmpty bs) bs := by
+  cases bs with
+  | nil => exact AEq.refl _ _ _ _
+  | cons b bs => exact AEq.cons b (aEq_trimGo e rtl bs)
+
+/-- a branch that starts with the rune `c` fails unless the next rune is `c` -/
+theorem firstChar_fails (e : Env) {b : RNode} {c : Nat} (h : firstChar b = some c) (st : St)
+    (hne : e.text[st.pos]? ≠ some c) : m e (toPat false b) false st = [] := by
+  unfold firstChar at h
+  cases hs : startOf b with
+  | none => simp [hs] at h
+  | some os =>
+    obtain ⟨o, s⟩ := os
+    simp only [hs, Option.bind_some] at h
+    cases s with
+    | nil => simp at h
+    | cons c' t =>
+      simp only [List.head?_cons, Option.some.injEq] at h
+      subst h
+      rw [stripPrefix_sound e b o [c'] t (by simpa using hs) st, m_seq_ltr]
+      have : m e (strPat [c']) false st = [] := by
+        simp only [strPat, List.map_cons, List.map_nil, seqOf, lit]
+        rw [m_chr_ltr]
+        have : acc e (.one c' false) st.pos = false := by
+          unfold acc
+          cases hx : e.text[st.pos]? with
+          | none => rfl
+          | some r =>
+            have : r ≠ c' := by intro hr; apply hne; rw [hx, hr]
+            simp [Pred.test]; exact fun h => this h.symm
+        simp [this]
+      rw [this]; rfl
+
+theorem mA_filter_first (e : Env) (st : St) : ∀ (l : List RNode), (∀ b ∈ l, (firstChar b).isSome = true) →
+    mA e false l st = mA e false (l.filter (fun b => firstChar b == e.text[st.pos]?)) st
+  | [], _ => rfl
+  | b :: l, hall => by
+    have ih := mA_filter_first e st l (fun x hx => hall x (by simp [hx]))
+    rw [mA_cons, List.filter_cons]
+    split
+    · rw [mA_cons, ih]
+    · rename_i hb
+      have hsome := hall b (by simp)
+      cases hc : firstChar b with
+      | none => simp [hc] at hsome
+      | some c =>
+        have : e.text[st.pos]? ≠ some c := by
+          intro h; apply hb; rw [hc, h]; simp
+        rw [firstChar_fails e hc st this, List.nil_append, ih]
+
+theorem filter_filter_eq {α : Type} (l : List α) (p q : α → Bool) : (l.filter p).filter q = l.filter (fun x => p x && q x) := by
+  rw [List.filter_filter]; congr 1; funext x; exact Bool.and_comm _ _
+
+theorem groupByFirst_spec : ∀ (fuel : Nat) (l : List RNode), l.length ≤ fuel →
+    (∀ k : Option Nat, (groupByFirst fuel l).1.filter (fun b => firstChar b == k) = l.filter (fun b => firstChar b == k)) ∧
+    (∀ b ∈ (groupByFirst fuel l).1, b ∈ l)
+  | 0, l, h => by
+    have : l = [] := List.eq_nil_of_length_eq_zero (by omega)
+    subst this; simp [groupByFirst]
+  | fuel + 1, [], _ => by simp [groupByFirst]
+  | fuel + 1, x :: xs, h => by
+    simp only [groupByFirst]
+    have hlen : (xs.filter (fun b => firstChar b != firstChar x)).length ≤ fuel := by
+      have := List.length_filter_le (fun b => firstChar b != firstChar x) xs
+      simp only [List.length_cons] at h; omega
+    obtain ⟨ih1, ih2⟩ := groupByFirst_spec fuel (xs.filter (fun b => firstChar b != firstChar x)) hlen
+    refine ⟨?_, ?_⟩
+    · intro k
+      simp only [List.filter_cons, List.filter_append, ih1 k, filter_filter_eq]
+      by_cases hk : (firstChar x == k) = true
+      · have hk' : firstChar x = k := by simpa using hk
+        subst hk'
+        simp only [beq_self_eq_true, if_true, List.cons.injEq, true_and]
+        have h1 : (fun b => (firstChar b == firstChar x) && (firstChar b == firstChar x)) = (fun b => firstChar b == firstChar x) := by
+          funext b; simp
+        have h2 : xs.filter (fun b => (firstChar b != firstChar x) && (firstChar b == firstChar x)) = [] := by
+          rw [List.filter_eq_nil_iff]; intro b _; simp
+        rw [h1, h2, List.append_nil]
+      · simp only [hk, Bool.false_eq_true, if_false]
+        have hne : firstChar x ≠ k := by simpa using hk
+        have h1 : xs.filter (fun b => (firstChar b == firstChar x) && (firstChar b == k)) = [] := by
+          rw [List.filter_eq_nil_iff]; intro b _
+          simp only [Bool.and_eq_true, beq_iff_eq, not_and]
+          intro hb hbk; exact hne (hb ▸ hbk)
+        have h2 : (fun b => (firstChar b != firstChar x) && (firstChar b == k)) = (fun b => firstChar b == k) := by
+          funext b
+          by_cases hbk : firstChar b = k
+          · subst hbk
+            have : (firstChar b != firstChar x) = true := by simpa using fun h => hne h.symm
+            simp [this]
+          · have : (firstChar b == k) = false := by simpa using hbk
+            simp [this]
+        rw [h1, h2, List.nil_append]
+    · intro b hb
+      simp only [List.mem_cons, List.mem_append, List.mem_filter] at hb ⊢
+      rcases hb with (rfl | ⟨hb, _⟩) | hb
+      · exact Or.inl rfl
+      · exact Or.inr hb
+      · have := ih2 b hb
+        simp only [List.mem_filter] at this
+        exact Or.inr this.1
+
+/-- the reordering of a run of branches that all start with a One/Multi keeps the ordered successes
+    (not only the first): the branches with a different first rune all fail -/
+theorem aEq_groupByFirst (e : Env) (l : List RNode) (hall : ∀ b ∈ l, (firstChar b).isSome = true) :
+    AEq false e false (groupByFirst l.length l).1 l := by
+  intro st
+  simp only [LRel, Bool.false_eq_true, if_false]
+  obtain ⟨h1, h2⟩ := groupByFirst_spec l.length l (Nat.le_refl _)
+  rw [mA_filter_first e st _ (fun b hb => hall b (h2 b hb)), h1, ← mA_filter_first e st l hall]
+
+theorem mem_takeWhile_pred {α : Type} {p : α → Bool} : ∀ {l : List α} {x : α}, x ∈ l.takeWhile p → p x = true
+  | [], _, h => by simp at h
+  | a :: l, x, h => by
+    simp only [List.takeWhile_cons] at h
+    split at h
+    · simp only [List.mem_cons] at h
+      rcases h with rfl | h
+      · assumption
+      · exact mem_takeWhile_pred h
+    · simp at h
+
+theorem aEq_reorderGo (e : Env) : ∀ (fuel : Nat) (l : List RNode), AEq false e false (reorderGo fuel l).1 l
+  | 0, l => by simp [reorderGo]; exact AEq.refl _ _ _ _
+  | fuel + 1, [] => by simp [reorderGo]; exact AEq.refl _ _ _ _
+  | fuel + 1, x :: xs => by
+    simp only [reorderGo]
+    split
+    · exact AEq.cons x (aEq_reorderGo e fuel xs)
+    · rename_i hx
+      have hx' : (firstChar x).isSome = true := by
+        cases hf : firstChar x with
+        | none => simp [hf] at hx
+        | some _ => rfl
+      have hrun : ∀ b ∈ x :: xs.takeWhile (fun b => (firstChar b).isSome), (firstChar b).isSome = true := by
+        intro b hb
+        simp only [List.mem_cons] at hb
+        rcases hb with rfl | hb
+        · exact hx'
+        · exact mem_takeWhile_pred (p := fun b => (firstChar b).isSome) hb
+      have hg : AEq false e false
+          (if 3 ≤ (x :: xs.takeWhile (fun b => (firstChar b).isSome)).length then
+              groupByFirst (x :: xs.takeWhile (fun b => (firstChar b).isSome)).length (x :: xs.takeWhile (fun b => (firstChar b).isSome))
+            else (x :: xs.takeWhile (fun b => (firstChar b).isSome), false)).1
+          (x :: xs.takeWhile (fun b => (firstChar b).isSome)) := by
+        split
+        · exact aEq_groupByFirst e _ hrun
+        · exact AEq.refl _ _ _ _
+      have hsplit : x :: xs = (x :: xs.takeWhile (fun b => (firstChar b).isSome)) ++ xs.dropWhile (fun b => (firstChar b).isSome) := by
+        simp [List.takeWhile_append_dropWhile]
+      split
+      · rename_i hrest
+        conv => rhs; rw [hsplit, hrest, List.append_nil]
+        exact hg
+      · rename_i y ys hrest
+        conv => rhs; rw [hsplit, hrest]
+        exact AEq.append hg (AEq.cons y (aEq_reorderGo e fuel ys))
+
+theorem aEq_reorder (e : Env) (bs : List RNode) : AEq false e false (reorder bs).1 bs := aEq_reorderGo e _ bs
+
+/-! ## `reduceSet`, `makeLoopAtomic`, `reduceAtomic` -/
+
+theorem reduceCP_test (e : Env) (p : CP) (r : Nat) : (reduceCP p).pred.test e r = p.pred.test e r := by
+  unfold reduceCP
+  split
+  · rename_i a b
+    split
+    · rename_i hab; subst hab
+      exact letterCls_test e (p := .one a) rfl r
+    · rfl
+  · rename_i a b
+    split
+    · rename_i hab; subst hab
+      have := letterCls_test e (p := .one a) rfl r
+      simp only [CP.pred, Pred.test, Bool.false_eq_true, if_false] at this ⊢
+      rw [this]
+      simp [Cls.mem]
+    · rfl
+  · rfl
+
+theorem m_chr_congr (e : Env) (p q : Pred) (h : ∀ r, p.test e r = q.test e r) (rtl : Bool) (st : St) :
+    m e (.chr p) rtl st = m e (.chr q) rtl st := by
+  simp only [m, h]
+
+theorem reduceCP_chr (e : Env) (o : Nat) (p : CP) (rtl : Bool) (st : St) :
+    m e (toPat rtl (.chr o (reduceCP p))) rtl st = m e (toPat rtl (.chr o p)) rtl st :=
+  m_chr_congr e _ _ (reduceCP_test e p) rtl st
+
+theorem reduceCP_cloop (e : Env) (o : Nat) (k : LK) (p : CP) (lo : Nat) (hi : Option Nat) (rtl : Bool) (st : St) :
+    m e (toPat rtl (.cloop o k (reduceCP p) lo hi)) rtl st = m e (toPat rtl (.cloop o k p lo hi)) rtl st := by
+  have hc : ∀ st, m e (.chr (reduceCP p).pred) rtl st = m e (.chr p.pred) rtl st :=
+    fun st => m_chr_congr e _ _ (reduceCP_test e p) rtl st
+  cases k <;> simp only [toPat, cloopPat]
+  · exact quant_congr_dir false lo hi hc st
+  · exact quant_congr_dir true lo hi hc st
+  · exact atomic_congr_dir (fun st => quant_congr_dir false lo hi hc st) st
+
+theorem strPat_replicate (c : Nat) : ∀ (n : Nat), strPat (List.replicate n c) = AutoAtomic.repPat (.one c false) n
+  | 0 => by simp [strPat, seqOf, AutoAtomic.repPat]
+  | 1 => by simp [strPat, seqOf, AutoAtomic.repPat, lit]
+  | n + 2 => by
+    have ih := strPat_replicate c (n + 1)
+    simp only [strPat, List.replicate_succ, List.map_cons, seqOf, AutoAtomic.repPat, lit] at ih ⊢
+    rw [ih]
+
+/-- `makeLoopAtomic` on the single-character loop under an Atomic node (left-to-right) -/
+theorem makeLoopAtomic_sound (e : Env) (o : Nat) (k : LK) (p : CP) (lo : Nat) (hi : Option Nat)
+    (hh : k = .lzy → AutoAtomic.hiAtLeast hi lo = true) (st : St) :
+    m e (toPat false (makeLoopAtomic (.cloop o k p lo hi))) false st = m e (.atomic (cloopPat k p lo hi)) false st := by
+  cases k with
+  | greedy => simp only [makeLoopAtomic, toPat, cloopPat]
+  | atomic =>
+    simp only [makeLoopAtomic, toPat, cloopPat]
+    rw [m_atomic, m_atomic, m_atomic, List.take_take]; simp
+  | lzy =>
+    have hh := hh rfl
+    simp only [makeLoopAtomic]
+    -- the atomic lazy loop is the repeater of its minimum
+    have hrep : m e (.atomic (cloopPat .lzy p lo hi)) false st
+        = m e (.atomic (.quant false lo (some lo) (.chr p.pred))) false st := by
+      simp only [cloopPat]
+      rw [atomic_eq_of_headEq (headEq_lazy_min e false lo hi _ (AutoAtomic.canGo_of_hiAtLeast hh)) st, m_atomic, m_atomic,
+        AutoAtomic.repeater_lazy_eq_greedy]
+    have hone : m e (.atomic (.quant false lo (some lo) (.chr p.pred))) false st
+        = m e (.quant false lo (some lo) (.chr p.pred)) false st := by
+      rw [m_atomic]
+      exact take_one_of_length_le _ (atMostOne_quant_fixed false lo (atMostOne_chr e false _) st)
+    rw [hrep]
+    by_cases h0 : lo = 0
+    · subst h0
+      simp only [if_true, toPat]
+      rw [hone, AutoAtomic.repeater_successes]
+      simp [m]
+    · simp only [h0, if_false]
+      cases p with
+      | one c =>
+        simp only
+        split
+        · simp only [toPat]
+          rw [strPat_replicate, hone]
+          exact AutoAtomic.repPat_eq_repeater e _ lo st
+        · simp only [toPat, cloopPat]
+      | notone c => simp only [toPat, cloopPat]
+      | set s => simp only [toPat, cloopPat]
+
+theorem atomic_idem' (e : Env) (p : Pat) (rtl : Bool) (st : St) : m e (.atomic (.atomic p)) rtl st = m e (.atomic p) rtl st := by
+  rw [m_atomic, m_atomic, List.take_take]; simp
+
+theorem atomic_mA_head (e : Env) (rtl : Bool) {cs cs' : List RNode} (h : AEq true e rtl cs cs') (o o' : Nat) (st : St) :
+    m e (toPat rtl (.atomic (.alt o cs))) rtl st = m e (toPat rtl (.atomic (.alt o' cs'))) rtl st := by
+  simp only [toPat]
+  rw [m_atomic, m_atomic]
+  apply take_one_congr
+  have := h st
+  simp only [LRel, if_true] at this
+  rw [m_altOf', m_altOf']
+  exact this
+
+/-- **`reduceAtomic` (proved variant) keeps the successes**: nested Atomic nodes, Empty / Nothing,
+    `makeLoopAtomic`, and for an alternation child: Empty first ⇒ Empty, the branches after an Empty
+    branch dropped, the branches that start with a One/Multi grouped by their first rune. -/
+theorem reduceAtomic_sound (e : Env) (red : Bool → RNode → RNode) (on rtl : Bool)
+    (hred : rtl = false → RedSound e false red) :
+    ∀ (b : RNode) (st : St), m e (toPat rtl (reduceAtomic red false on rtl (.atomic b))) rtl st = m e (toPat rtl (.atomic b)) rtl st
+  | .atomic b, st => by
+    rw [reduceAtomic, reduceAtomic_sound e red on rtl hred b st]
+    simp only [toPat]
+    rw [atomic_idem']
+  | .empty, st => by simp [reduceAtomic, toPat, m]
+  | .nothing, st => by simp [reduceAtomic, toPat, m]
+  | .cloop o k p lo hi, st => by
+    simp only [reduceAtomic]
+    split
+    · rfl
+    · rename_i hc
+      simp only [Bool.not_false, Bool.true_and, Bool.or_eq_true, Bool.and_eq_true, decide_eq_true_eq, Bool.not_eq_true',
+        not_or, not_and] at hc
+      cases rtl with
+      | false =>
+        have := makeLoopAtomic_sound e o k p lo hi (fun hk => by
+          have := hc.2 hk
+          simpa using this) st
+        simpa [toPat] using this
+      | true =>
+        have hk : k ≠ .lzy := fun hk => by simp [hk] at hc
+        cases k with
+        | greedy => simp only [makeLoopAtomic, toPat, cloopPat]
+        | atomic => simp only [makeLoopAtomic, toPat, cloopPat]; rw [atomic_idem']
+        | lzy => exact absurd rfl hk
+  | .alt o bs, st => by
+    simp only [reduceAtomic]
+    split
+    · rfl
+    · rename_i hc
+      simp only [Bool.or_eq_true, Bool.not_eq_true', not_or] at hc
+      have hrtl : rtl = false := by simpa using hc.2
+      subst hrtl
+      cases bs with
+      | nil => rfl
+      | cons b0 rest =>
+        simp only
+        split
+        · rename_i hb0
+          have : b0 = .empty := by cases b0 <;> simp_all [isEmpty]
+          subst this
+          simp only [toPat, toPats]
+          rw [m_atomic, m_altOf']
+          simp [ma, m]
+        · have hto : AEq true e false (reorder (trimAfterEmpty (b0 :: rest))).1 (b0 :: rest) :=
+            (AEq.of_eq (aEq_reorder e _)).trans (aEq_trimAfterEmpty e false _)
+          split
+          · -- reordered: the alternation is reduced again (its parent is the Atomic node)
+            have hr := hred rfl true (.alt o (reorder (trimAfterEmpty (b0 :: rest))).1)
+            have h2 : m e (toPat false (.atomic (red true (.alt o (reorder (trimAfterEmpty (b0 :: rest))).1)))) false st
+                = m e (toPat false (.atomic (.alt o (reorder (trimAfterEmpty (b0 :: rest))).1))) false st := by
+              simp only [toPat]
+              exact atomic_eq_of_headEq (NEq.headEq hr) st
+            rw [h2]
+            exact atomic_mA_head e false hto o o st
+          · exact atomic_mA_head e false hto o o st
+  | .chr .., st | .multi .., st | .bump, st | .anchor .., st | .ref .., st | .cat .., st | .loop .., st | .cap .., st
+  | .look .., st | .refCond .., st | .exprCond .., st => by simp only [reduceAtomic]
+
+/-! ## `reduce()` -/
+
+/-- **one `reduce()` (proved variant) keeps the successes of the node** — its first success when the
+    parent is an Atomic node -/
+theorem reduceNode_sound (e : Env) (ht : TextOK e) (on rtl : Bool) :
+    ∀ (fuel : Nat) (pa : Bool) (n : RNode), NEq pa e rtl (reduceNode false on rtl fuel pa n) n := by
+  intro fuel
+  induction fuel with
+  | zero => intro pa n; exact NEq.refl _ _ _ _
+  | succ fuel ih =>
+    intro pa n
+    cases n <;> simp only [reduceNode]
+    case alt o cs =>
+      exact reduceAlt_sound e ht _ on pa rtl (fun h => by subst h; exact fun pa n => ih pa n) o cs
+    case cat o cs => exact NEq.of_eq (fun st => LRel.of_eq (reduceCat_sound e rtl o cs st))
+    case atomic b =>
+      exact NEq.of_eq (fun st => LRel.of_eq
+        (reduceAtomic_sound e _ on rtl (fun h => by subst h; exact fun pa n => ih pa n) b st))
+    case chr o p => exact NEq.of_eq (fun st => LRel.of_eq (reduceCP_chr e o p rtl st))
+    case cloop o k p lo hi => exact NEq.of_eq (fun st => LRel.of_eq (reduceCP_cloop e o k p lo hi rtl st))
+    all_goals exact NEq.refl _ _ _ _
+
+theorem redSound_reduceNode (e : Env) (ht : TextOK e) (on : Bool) (fuel : Nat) :
+    RedSound e false (reduceNode false on false fuel) := fun pa n => reduceNode_sound e ht on false fuel pa n
+
+/-! ## the ending walk: same first success -/
+
+theorem headEq_altOf_map (e : Env) (rtl : Bool) (f : RNode → RNode)
+    (hf : ∀ x, HeadEq e rtl (toPat rtl (f x)) (toPat rtl x)) :
+    ∀ (bs : List RNode), HeadEq e rtl (altOf (toPats rtl (bs.map f))) (altOf (toPats rtl bs))
+  | [] => HeadEq.refl _ _ _
+  | b :: bs => by
+    intro st
+    have ih := headEq_altOf_map e rtl f hf bs st
+    rw [m_altOf', m_altOf'] at ih ⊢
+    simp only [List.map_cons, toPats, ma_cons]
+    exact head?_append_congr (hf b st) ih
+
+theorem headEq_seqOf_last (e : Env) (f : RNode → RNode) (hf : ∀ x, HeadEq e false (toPat false (f x)) (toPat false x)) :
+    ∀ (cs : List RNode), HeadEq e false (seqOf (toPats false (lastMap f cs))) (seqOf (toPats false cs))
+  | [] => HeadEq.refl _ _ _
+  | [x] => by simp only [lastMap, toPats, seqOf]; exact hf x
+  | x :: y :: rest => by
+    have ih := headEq_seqOf_last e f hf (y :: rest)
+    intro st
+    have h1 : ∀ (l : List RNode), m e (seqOf (toPats false (x :: l))) false st
+        = m e (.seq (toPat false x) (seqOf (toPats false l))) false st := by
+      intro l; simp only [toPats]; exact ms_cons e false _ _ st
+    rw [lastMap, h1, h1]
+    exact headEq_seq_ltr _ ih st
+
+/-- **`eliminateEndingBacktracking` as far as it is modelled (Atomic wrappers around the constructs in
+    tail position, alternations there reduced again with an Atomic parent) keeps the first success** -/
+theorem endElim_headEq (e : Env) (red : Bool → RNode → RNode) (hred : RedSound e false red) :
+    ∀ (fuel : Nat) (rtl pa wrapOK : Bool) (n : RNode),
+      HeadEq e rtl (toPat rtl (endElim red fuel rtl pa wrapOK n)) (toPat rtl n) := by
+  intro fuel
+  induction fuel with
+  | zero => intro rtl pa wrapOK n; exact HeadEq.refl _ _ _
+  | succ f ih =>
+    intro rtl pa wrapOK n
+    simp only [endElim]
+    cases rtl with
+    | true => simp only [if_true]; exact HeadEq.refl _ _ _
+    | false =>
+      simp only [Bool.false_eq_true, if_false]
+      have wrap : ∀ (r x : RNode), HeadEq e false (toPat false r) (toPat false x) →
+          HeadEq e false (toPat false (if wrapOK = true then RNode.atomic r else r)) (toPat false x) := by
+        intro r x hrx
+        cases wrapOK with
+        | false => simpa using hrx
+        | true =>
+          simp only [if_true, toPat]
+          exact (headEq_atomic e false (toPat false r)).symm.trans hrx
+      cases n
+      case alt o bs =>
+        simp only
+        split
+        · -- wrapped in a new Atomic node and reduced again
+          refine (ih false false false _).trans ?_
+          have h1 : HeadEq e false (toPat false (red false (.atomic (red true (.alt o bs))))) (toPat false (.atomic (red true (.alt o bs)))) :=
+            NEq.headEq (hred false _)
+          refine h1.trans ?_
+          simp only [toPat]
+          exact (headEq_atomic e false _).symm.trans (NEq.headEq (hred true (.alt o bs)))
+        · simp only [toPat]
+          exact headEq_altOf_map e false _ (fun x => ih false false false x) bs
+      case atomic b =>
+        simp only [toPat]
+        exact HeadEq.of_eq (atomic_eq_of_headEq (ih false true false b))
+      case look bh ng b =>
+        simp only [toPat]
+        exact HeadEq.of_eq (fun st => look_eq_of_headEq ng (ih bh false false b) false st)
+      case cap g b =>
+        simp only [toPat]
+        exact headEq_cap g (ih false false (!pa) b)
+      case cat o cs =>
+        simp only [toPat, dir, Bool.false_eq_true, if_false]
+        exact headEq_seqOf_last e _ (fun x => ih false false (!pa) x) cs
+      case refCond g y n =>
+        simp only
+        apply wrap
+        simp only [toPat]
+        exact headEq_refCond g (ih false false false y) (ih false false false n)
+      case exprCond c y n =>
+        simp only
+        apply wrap
+        simp only [toPat]
+        exact headEq_exprCond (HeadEq.refl _ _ _) (ih false false false y) (ih false false false n)
+      case loop lzy lo hi b =>
+        simp only
+        apply wrap
+        cases lzy with
+        | false =>
+          simp only [Bool.false_eq_true, if_false]
+          by_cases hc : hi = some 1
+          · subst hc
+            simp only [if_true, toPat]
+            exact headEq_quant_hi_one false lo (ih false false false b)
+          · simp only [hc, if_false]; exact HeadEq.refl _ _ _
+        | true =>
+          simp only [if_true]
+          by_cases hc : lo = 1 ∧ AutoAtomic.hiAtLeast hi 1 = true
+          · obtain ⟨rfl, hh⟩ := hc
+            simp only [hh, and_self, if_true, toPat]
+            have hcg := AutoAtomic.canGo_of_hiAtLeast hh
+            exact (headEq_lazy_min e false 1 hi _ hcg).trans
+              ((headEq_quant_hi_one true 1 (ih false false false b)).trans (headEq_lazy_min e false 1 hi _ hcg).symm)
+          · simp only [hc, if_false]; exact HeadEq.refl _ _ _
+      all_goals exact HeadEq.refl _ _ _
+
+theorem endElim_rtl (red : Bool → RNode → RNode) (fuel : Nat) (pa w : Bool) (n : RNode) :
+    endElim red fuel true pa w n = n := by
+  cases fuel <;> simp [endElim]
+
+theorem endElim_headEq' (e : Env) (ht : TextOK e) (on : Bool) (fuel f : Nat) (rtl pa w : Bool) (n : RNode) :
+    HeadEq e rtl (toPat rtl (endElim (reduceNode false on rtl fuel) f rtl pa w n)) (toPat rtl n) := by
+  cases rtl with
+  | true => rw [endElim_rtl]; exact HeadEq.refl _ _ _
+  | false => exact endElim_headEq e _ (redSound_reduceNode e ht on fuel) f false pa w n
+
+/-! ## the bottom-up pass -/
+
+mutual
+/-- **`reduceAll` (proved variant) keeps the successes of every node** (the first success of an
+    alternation whose parent is an Atomic node) -/
+theorem reduceAll_sound (e : Env) (ht : TextOK e) (on dg : Bool) (fuel : Nat) :
+    ∀ (n : RNode) (rtl pa : Bool), NEq pa e rtl (reduceAll false on dg fuel rtl pa n) n
+  | .alt o cs, rtl, pa => by
+    rw [reduceAll]
+    refine (reduceNode_sound e ht on rtl fuel pa _).trans (NEq.of_eq ?_)
+    intro st
+    rw [m_alt, m_alt]
+    exact (reduceAlls_sound e ht on dg fuel cs rtl).1 st
+  | .cat o cs, rtl, pa => by
+    rw [reduceAll]
+    split
+    · refine (reduceNode_sound e ht on rtl fuel pa _).trans (NEq.of_eq ?_)
+      intro st
+      rw [m_cat, m_cat]
+      exact LRel.of_eq ((reduceAlls_sound e ht on dg fuel cs rtl).2 st)
+    · exact NEq.refl _ _ _ _
+  | .atomic b, rtl, pa => by
+    rw [reduceAll]
+    have hb : NEq pa e rtl (reduceNode false on rtl fuel pa (.atomic (reduceAll false on dg fuel rtl dg b))) (.atomic b) := by
+      refine (reduceNode_sound e ht on rtl fuel pa _).trans (NEq.of_eq ?_)
+      intro st
+      simp only [toPat]
+      exact LRel.of_eq (atomic_eq_of_headEq (NEq.headEq (reduceAll_sound e ht on dg fuel b rtl dg)) st)
+    split
+    · rename_i x hx
+      rw [hx] at hb
+      split
+      · refine NEq.trans (NEq.of_eq ?_) hb
+        intro st
+        simp only [toPat]
+        exact LRel.of_eq (atomic_eq_of_headEq (endElim_headEq' e ht on fuel fuel rtl true false x) st)
+      · exact hb
+    · exact hb
+  | .loop lzy lo hi b, rtl, pa => by
+    rw [reduceAll]
+    refine NEq.of_eq (fun st => LRel.of_eq ?_)
+    simp only [toPat]
+    exact quant_congr_dir lzy lo hi (fun st => NEq.eq (reduceAll_sound e ht on dg fuel b rtl false) st) st
+  | .cap g b, rtl, pa => by
+    rw [reduceAll]
+    refine NEq.of_eq (fun st => LRel.of_eq ?_)
+    simp only [toPat]
+    exact cap_congr_dir g (fun st => NEq.eq (reduceAll_sound e ht on dg fuel b rtl false) st) st
+  | .look bh ng b, rtl, pa => by
+    rw [reduceAll]
+    refine NEq.of_eq (fun st => LRel.of_eq ?_)
+    simp only [toPat]
+    have h1 : HeadEq e bh (toPat bh (reduceAll false on dg fuel bh false b)) (toPat bh b) :=
+      NEq.headEq (reduceAll_sound e ht on dg fuel b bh false)
+    split
+    · exact look_eq_of_headEq ng ((endElim_headEq' e ht on fuel fuel bh false false _).trans h1) rtl st
+    · exact look_eq_of_headEq ng h1 rtl st
+  | .refCond g y n, rtl, pa => by
+    rw [reduceAll]
+    refine NEq.of_eq (fun st => LRel.of_eq ?_)
+    simp only [toPat]
+    exact refCond_congr_dir g (fun st => NEq.eq (reduceAll_sound e ht on dg fuel y rtl false) st)
+      (fun st => NEq.eq (reduceAll_sound e ht on dg fuel n rtl false) st) st
+  | .exprCond c y n, rtl, pa => by
+    rw [reduceAll]
+    refine NEq.of_eq (fun st => LRel.of_eq ?_)
+    simp only [toPat]
+    have hc : HeadEq e rtl (toPat rtl (reduceAll false on dg fuel rtl false c)) (toPat rtl c) :=
+      NEq.headEq (reduceAll_sound e ht on dg fuel c rtl false)
+    have hc' : HeadEq e rtl
+        (toPat rtl (if on = true then endElim (reduceNode false on rtl fuel) fuel rtl false false (reduceAll false on dg fuel rtl false c)
+          else reduceAll false on dg fuel rtl false c)) (toPat rtl c) := by
+      split
+      · exact (endElim_headEq' e ht on fuel fuel rtl false false _).trans hc
+      · exact hc
+    rw [exprCond_eq_of_headEq _ _ hc' st]
+    exact exprCond_congr_dir (fun _ => rfl) (fun st => NEq.eq (reduceAll_sound e ht on dg fuel y rtl false) st)
+      (fun st => NEq.eq (reduceAll_sound e ht on dg fuel n rtl false) st) st
+  | .chr .., _, _ | .cloop .., _, _ | .multi .., _, _ | .empty, _, _ | .nothing, _, _ | .bump, _, _ | .anchor .., _, _
+  | .ref .., _, _ => by simp only [reduceAll]; exact NEq.refl _ _ _ _
+theorem reduceAlls_sound (e : Env) (ht : TextOK e) (on dg : Bool) (fuel : Nat) :
+    ∀ (cs : List RNode) (rtl : Bool),
+      AEq false e rtl (reduceAlls false on dg fuel rtl cs) cs ∧ CatEq e rtl (reduceAlls false on dg fuel rtl cs) cs
+  | [], rtl => by rw [reduceAlls]; exact ⟨AEq.refl _ _ _ _, CatEq.refl _ _ _⟩
+  | x :: xs, rtl => by
+    rw [reduceAlls]
+    have hx := reduceAll_sound e ht on dg fuel x rtl false
+    have ih := reduceAlls_sound e ht on dg fuel xs rtl
+    exact ⟨AEq.append (a := [_]) (a' := [x]) (AEq.of_node hx) ih.1,
+      CatEq.append (a := [_]) (a' := [x]) (CatEq.of_m (fun st => NEq.eq hx st)) ih.2⟩
+end
+
+/-- **the whole model of the gated rewrites keeps the first success of the pattern** (and all
+    successes below the ending walk) -/
+theorem rewriteTop_headEq (e : Env) (ht : TextOK e) (dg : Bool) (fuel : Nat) (rtl : Bool) (n : RNode) :
+    HeadEq e rtl (toPat rtl (rewriteTop false dg fuel rtl n)) (toPat rtl n) := by
+  unfold rewriteTop
+  exact (endElim_headEq' e ht true fuel fuel rtl false true _).trans
+    (NEq.headEq (reduceAll_sound e ht true dg fuel n rtl false))
 
 end RegexVerif.RewriteDecisions
